@@ -50,8 +50,13 @@ def run(prop, tier, seed, repo, jobs):
             if watch and tier == 'quick' and prop == 'C11' and 'service' not in kinds:
                 continue     # single-instance obligation is about services
             cases.append((prop, kinds, watch, K, qcap, seed, True, 300 if tier == 'quick' else 2400, repo, tier))
-    with Pool(min(jobs, len(cases))) as pool:
-        results = pool.map(proto.run_case, cases, chunksize=1)
+    L = 10 if tier == 'quick' else 14
+    locals_ = [(prop, kind, watch, L, repo) for (kind, watch) in proto.LOCAL_PLAN.get(prop, [])]
+    with Pool(min(jobs, len(cases) + len(locals_))) as pool:
+        r1 = pool.map_async(proto.run_case, cases, chunksize=1)
+        r2 = pool.map_async(proto.run_local, locals_, chunksize=1)
+        results = r1.get()
+        lresults = r2.get()
     violations, inconclusive, known_lines = [], [], []
     reported_known, known_instances = {}, []
     nq = nunsat = 0
@@ -140,6 +145,62 @@ def run(prop, tier, seed, repo, jobs):
                 traces_validated += 1
                 if len(samples) < 8:
                     samples.append({'case': tag, 'witness': [s['alt'] for s in w['case']['steps'] if s['alt'][0] != 'stutter'], 'native_spawn_order': got, 'native_rc': tr.rc})
+    # LOCAL obligations: one actor in an open environment, counterexamples replayed through the single-actor harness
+    from .. import local_replay as lr
+    for res in lresults:
+        tag = 'local %s%s' % (res['kind'], ' watch' if res['watch'] else '')
+        if res['error']:
+            inconclusive.append('%s: %s' % (tag, res['error']))
+            continue
+        fns |= set(res['functions'])
+        states += res['state_vars'] * (res['L'] + 1)
+        transitions += res['alternatives'] * res['L']
+        for q in res['queries']:
+            nq += 1
+            solver_s += q['solver_s']
+            if q['verdict'] == 'unsat':
+                nunsat += 1
+                if len(samples) < 10:
+                    samples.append({'case': tag, 'obligation': q['name'], 'verdict': 'unsat', 'solver_s': q['solver_s'], 'L': res['L']})
+                continue
+            if q['verdict'] != 'sat':
+                inconclusive.append('%s: %s: solver returned %s' % (tag, q['name'], q['verdict']))
+                continue
+            replay_n += 1
+            rpath = os.path.join(common.REPLAYS, '%s-local-%d.json' % (prop, replay_n))
+            try:
+                native, sched, events = lr.run_trace(q['trace'], repo)
+                viol = lr.concrete_monitor(q['trace'], native)
+                confirmed = q['monitor'] in viol
+            except Exception as e:   # pragma: no cover
+                inconclusive.append('%s: %s: native replay failed: %s' % (tag, q['name'], e))
+                continue
+            os.makedirs(common.REPLAYS, exist_ok=True)
+            json.dump({'kind': 'local', 'property': prop, 'obligation': q['name'], 'trace': q['trace'], 'events': events, 'schedule': sched,
+                       'native': native, 'native_violations': sorted(viol), 'confirmed': confirmed}, open(rpath, 'w'), indent=1, default=str)
+            if not confirmed:
+                inconclusive.append('%s: %s: solver counterexample did not reproduce on the real actor (replay %s)' % (tag, q['name'], rpath))
+                continue
+            violations.append(rpath)
+            samples.append({'case': tag, 'obligation': q['name'], 'verdict': 'sat (reproduced on the real actor)',
+                            'trace': [(s_['alt'][0], s_['msg']) for s_ in q['trace']['steps'] if s_['alt'][0] != 'stutter']})
+        w = res.get('witness')
+        if w is not None:
+            try:
+                native, sched, events = lr.run_trace(w, repo)
+                n_ok = sum(1 for st in native['steps'] for o in st['out'] if o[1] == 'Ok')
+                n_sp = sum(st['spawn'] for st in native['steps'])
+                if n_ok != res.get('witness_model_oks') or n_sp != res.get('witness_model_spawns'):
+                    inconclusive.append('%s: encoder/real-actor divergence on a witness: model Ok=%s spawn=%s, real actor Ok=%s spawn=%s'
+                                        % (tag, res.get('witness_model_oks'), res.get('witness_model_spawns'), n_ok, n_sp))
+                else:
+                    traces_validated += 1
+                    if len(samples) < 12:
+                        samples.append({'case': tag, 'witness_events': events[:12], 'native_ok_messages': n_ok, 'native_spawns': n_sp})
+            except Exception as e:   # pragma: no cover
+                inconclusive.append('%s: witness replay failed: %s' % (tag, e))
+        elif not res['error']:
+            inconclusive.append('%s: vacuity: no witness run found' % tag)
     wall = time.time() - t0
     coverage = {
         'states': max(states, 1), 'transitions': max(transitions, 1), 'traces_validated_against_impl': traces_validated,
